@@ -14,6 +14,8 @@ import GeoProofs.Lemmas.C06PScale
 import GeoProofs.Lemmas.C06PHull
 import GeoProofs.Lemmas.C06PPos
 import GeoProofs.Lemmas.C06PHullA
+import GeoProofs.Lemmas.C06XSep
+import GeoProofs.Lemmas.C06XMoment
 import Mathlib.Tactic.NormNum
 
 namespace Geo.Proofs.C06
@@ -532,5 +534,91 @@ example : ConvexG (.collection [.point ⟨5, 5⟩, .rect ⟨0, 0⟩ ⟨2, 1⟩, 
   intro l hl q hq
   simp [windows2] at hl hq
   rcases hl with rfl | rfl | rfl <;> rcases hq with rfl | rfl | rfl | rfl <;> norm_num [crossProd]
+
+/-! ### T2 hull membership: the dual description, and polygons with holes -/
+
+/-- [T] finite separation in the rational plane: for a non-empty coordinate list, "explicit convex
+combination" (`InHull`) is the same as "in every closed half-plane `α x + β y + γ ≥ 0` that contains the
+list" (`InHalfPlanes`). The hard direction has no convexity library behind it: a point in no triangle of
+`S` sees `S` inside an angle smaller than a straight angle (most clockwise / most counter-clockwise point
+by induction, the replaced extreme closing a triangle around the point otherwise), and a line through the
+point, lowered by the least value on `S`, separates. -/
+theorem hull_iff_halfplanes (S : List Pt) (hS : S ≠ []) (c : Pt) : InHull S c ↔ InHalfPlanes S c :=
+  inHull_iff_halfPlanes hS c
+
+example : InHalfPlanes [⟨0, 0⟩, ⟨4, 0⟩, ⟨0, 4⟩] ⟨1, 1⟩ := by
+  intro α β γ h
+  have h1 := h ⟨0, 0⟩ (by simp)
+  have h2 := h ⟨4, 0⟩ (by simp)
+  have h3 := h ⟨0, 4⟩ (by simp)
+  simp only at h1 h2 h3 ⊢
+  linarith
+
+/-- [T] the centroid of a polygon with an areal shell and non-zero net area, as moments: for every affine
+`f = α x + β y + γ`, `f(centroid) · (|A_shell| − Σ |A_hole|) = |∫_shell f| − Σ |∫_hole f|`, the integrals in
+shoelace form (`ringMoment`: `Σ det(p, q)(f p + f q + f 0)/6`, taken with the sign of the ring's area). For
+every polygon of that kind, holes anywhere and of any size. -/
+theorem polygon_centroid_moment (len : Pt → Pt → Rat) (hpos : ∀ a b, a ≠ b → 0 < len a b) (p : Poly)
+    (hA : twiceAreaText p.ext ≠ 0) (hnet : netArea p ≠ 0) (c : Pt)
+    (h : centroid len (.polygon p) = some c) (α β γ : Rat) :
+    (α * c.x + β * c.y + γ) * netArea p = polyMoment α β γ p := by
+  rw [centroid_eq_spec_of_pos len hpos] at h
+  have hat : atoms len (.polygon p) = polyAtoms len p := by simp [atoms]
+  have hne : (polyAtoms len p).isEmpty = false := by rw [polyAtoms_areal len p hA hnet]; rfl
+  simp only [centroidSpec, hat, hne, Bool.false_eq_true, if_false, Option.some.injEq,
+    polyAtoms_top len p hA hnet] at h
+  have hW := poly_weight len p hA hnet
+  rw [← h, weightedMean_affine α β γ _ (by rw [hW]; exact hnet), hW, poly_atomMoment len α β γ p hA hnet]
+  field_simp
+
+example : twiceAreaText [⟨0, 0⟩, ⟨4, 0⟩, ⟨4, 4⟩, ⟨0, 4⟩, ⟨0, 0⟩] ≠ 0 := by
+  norm_num [twiceAreaText, isClosed, windows2, det, sumR]
+
+/-- [Tp] `centroid_in_hull` for a polygon with holes.
+Full statement: for every OGC-valid polygon (`polyValid`) the centroid is a convex combination of the
+shell's vertices.
+Proved here: the statement for *every* polygon with an areal shell and positive net area under the one
+hypothesis `hM` — for every closed half-plane `f ≥ 0` containing the shell's vertices the net first moment
+`|∫_shell f| − Σ |∫_hole f|` (shoelace form, `polyMoment`) is non-negative. That is what "the holes lie
+inside the shell and do not overlap" gives (the integrand `f · (1_shell − Σ 1_hole)` is non-negative: `f ≥ 0`
+on the shell, which lies in the hull of its vertices); deriving `hM` from `polyValid` — the shoelace moments
+as integrals over slabs of the region between the rings — is the part that is not proved. No hypothesis
+on the centroid itself, the weights of the holes are negative, the conclusion names shell vertices only. -/
+theorem centroid_in_hull_polygon_partial (len : Pt → Pt → Rat) (hpos : ∀ a b, a ≠ b → 0 < len a b)
+    (p : Poly) (hA : twiceAreaText p.ext ≠ 0) (hnet : 0 < netArea p)
+    (hM : ∀ α β γ : Rat, (∀ s ∈ p.ext, 0 ≤ α * s.x + β * s.y + γ) → 0 ≤ polyMoment α β γ p)
+    (c : Pt) (h : centroid len (.polygon p) = some c) : InHull p.ext c := by
+  have hne' : p.ext ≠ [] := by
+    intro h0; rw [h0] at hA; exact hA (by simp [twiceAreaText])
+  apply inHull_of_halfPlanes hne'
+  intro α β γ hs
+  have hm := polygon_centroid_moment len hpos p hA (ne_of_gt hnet) c h α β γ
+  have := hM α β γ hs
+  rw [← hm] at this
+  by_contra hn
+  have hneg : α * c.x + β * c.y + γ < 0 := not_le.1 hn
+  nlinarith
+
+/-- the hypotheses of `centroid_in_hull_polygon_partial` on a square with a square hole -/
+example :
+    let p : Poly := ⟨[⟨0, 0⟩, ⟨4, 0⟩, ⟨4, 4⟩, ⟨0, 4⟩, ⟨0, 0⟩], [[⟨1, 1⟩, ⟨1, 2⟩, ⟨2, 2⟩, ⟨2, 1⟩, ⟨1, 1⟩]]⟩
+    twiceAreaText p.ext ≠ 0 ∧ 0 < netArea p ∧
+      ∀ α β γ : Rat, (∀ s ∈ p.ext, 0 ≤ α * s.x + β * s.y + γ) → 0 ≤ polyMoment α β γ p := by
+  intro p
+  have hh : arealHoles p = [[⟨1, 1⟩, ⟨1, 2⟩, ⟨2, 2⟩, ⟨2, 1⟩, ⟨1, 1⟩]] := by
+    simp only [arealHoles, p]
+    rw [List.filter_cons_of_pos (by norm_num [twiceAreaText, isClosed, windows2, det, sumR])]
+    rfl
+  refine ⟨by norm_num [p, twiceAreaText, isClosed, windows2, det, sumR], ?_, ?_⟩
+  · rw [netArea, hh]
+    norm_num [p, twiceAreaText, isClosed, windows2, det, sumR, rabs]
+  · intro α β γ hs
+    have h1 := hs ⟨0, 0⟩ (by simp [p])
+    have h2 := hs ⟨4, 0⟩ (by simp [p])
+    have h3 := hs ⟨4, 4⟩ (by simp [p])
+    have h4 := hs ⟨0, 4⟩ (by simp [p])
+    rw [polyMoment, hh]
+    norm_num [p, absRingMoment, ringMoment, twiceAreaText, isClosed, windows2, det, sumR] at h1 h2 h3 h4 ⊢
+    linarith
 
 end Geo.Proofs.C06
